@@ -47,7 +47,7 @@ func init() { register(c05{}) }
 func (c05) ID() string { return "C05" }
 func (c05) Rule() string {
 	return "registry codec of .90 / .92: Encode then Decode through the harness PixelData; every decoded frame byte-equal to its source. Domain guard: parameters nil, or AppendLosslessLayer=true, or (Rate=0 and TargetRatio=0); other objects are counted out-of-domain. " +
-		"cases: (small) every size up to 6x6 with nil/default parameters; (grid) widths 1..40 x heights 1..80 with rotating parameter objects (typed and generic carrying the same keys): Rate, RateLevels ladders (default, descending sub-ladder, single level, all <= Rate), TargetRatio, NumLayers 1..10, PCRD, NumLevels 0..6, progression 0..4, MCT; (rand) sizes up to 600. " +
+		"cases: (small) every size up to 6x6 with nil/default parameters; (grid) widths 1..40 x heights 1..80 with rotating parameter objects (typed and generic carrying the same keys): Rate, RateLevels ladders (default, descending sub-ladder, single level, all <= Rate), TargetRatio, NumLayers 1..10, PCRD, NumLevels 0..6, progression 0..4, MCT; (rand) sizes up to 600; (norate) 48..247 square-ish noise images with AppendLosslessLayer=false, Rate=0, TargetRatio=0 through generic and typed objects. " +
 		"non-trivial: in-domain, encoder accepted, all frames compared; distinct = distinct descriptor"
 }
 func (c05) Assumptions() []string {
@@ -136,6 +136,24 @@ func (c05) Build(tier string, seed uint64) []any {
 		}
 		randC05Frame(r, c)
 		randC05Params(r, c)
+		cs = append(cs, c)
+	}
+	// (norate) the second half of the property's domain on images large enough for a rate
+	// target to bite: no final lossless layer requested and no rate target (Rate = 0,
+	// TargetRatio = 0), typed and generic parameter objects, noise
+	nNoRate := 32
+	if th {
+		nNoRate = 800
+	}
+	for i := 0; i < nNoRate; i++ {
+		r := gen.Sub(seed, "C05", "norate", i)
+		c := &c05Case{Gen: "norate", W: 48 + r.Intn(200), H: 48 + r.Intn(200)}
+		randC05Frame(r, c)
+		randC05Params(r, c)
+		c.PKind = gen.Pick(r, "generic", "generic", "typed")
+		c.Append, c.Rate, c.Ratio = false, 0, 0
+		c.Class = "noise"
+		c.Frames = 1
 		cs = append(cs, c)
 	}
 	for i := 0; i < nRand; i++ {
